@@ -51,6 +51,8 @@ THOROUGH = {
     "multi2":  inst(["W1", "S"], ["multi", "subscribe2"], Spellings='{"a", "*", "a/*"}', RemKeys='{"a", "*", "a/*"}', MultiOps="TRUE", MultiSub="TRUE", Filters="{0, 1, 2}"),
     "quiet2":  inst(["W1", "S"], ["quiet-set", "quiet-remove", "quiet-subscribe"], DeepPaths='{"a", "a/b"}', Spellings='{"a", "*", "a/*"}', Quiet="TRUE", MaxItemsMenu="{2, 50}"),
     "subs3":   inst(["W1", "S"], ["subscribe", "unsubscribe"], DeepPaths='{"a", "a/b"}', Spellings='{"a", "*", "a/*", "*/b", "a,b"}', MaxSubs=3),
+    "full":    inst(["W1", "W2", "S"], [], Writers='{"W1", "W2"}', Churn='{"W2"}', DeepWriters='{"W1", "W2"}', Spellings='{"a", "*", "a/*", "*/b", "/*/*/a", "a,b"}',
+                    RemKeys='{"a", "*", "a/*", "*/b", "a,b"}'),      # 1.9e5 states, 5.8e6 transitions: model-checked, not printed
     "depth3":  inst(["W1", "S"], ["set", "remove"], DeepPaths='{"a", "a/b", "a/b/a"}', Spellings='{"a", "a/*", "/*/*/*"}', RemKeys='{"a", "a/*", "*/*"}', MaxItemsMenu="{1, 2, 50}"),
 }
 # each named deviation must break the invariant named (the invariants are not vacuous; F27 is the open known finding as modelled)
@@ -80,7 +82,7 @@ def run(v, tier, seed):
     def model_and_replay(name, I):
         c = dict(I["c"]); c["RECORD"] = "TRUE"
         cfg = rc.write_cfg("gen_C04_%s.cfg" % name, "Spec", c, INVS, view="view")
-        r = vlib.tlc("SubsImpl", cfg, rc.FAMILY, workers=(2 if tier == "quick" else 4), timeout=(600 if tier == "quick" else 3000), heap="6g")
+        r = vlib.tlc("SubsImpl", cfg, rc.FAMILY, workers=(2 if tier == "quick" else 4), timeout=(600 if tier == "quick" else 3000), heap="5g")
         vlib.require_ok(r, "SubsImpl instance %s" % name)
         if not r.printed: raise vlib.MachineryError("SubsImpl instance %s printed no transitions" % name)
         walks, st = rc.cover_walks(r.printed, maxlen=150)
@@ -100,6 +102,12 @@ def run(v, tier, seed):
         os.remove(bf)
         return name, r, st, ops, nontrivial, rows, smp
 
+    def model_only(name, I):
+        cfg = rc.write_cfg("gen_C04_MC_%s.cfg" % name, "Spec", I["c"], INVS)
+        r = vlib.tlc("SubsImpl", cfg, rc.FAMILY, workers=6, timeout=3000, heap="8g")
+        vlib.require_ok(r, "SubsImpl instance %s" % name)
+        return name, r
+
     def reach(tag, over, invs):
         c = dict(BASE); c.update({"DeepPaths": '{"a", "a/b"}', "Spellings": '{"a", "*"}', "RemKeys": '{"a"}'}); c.update(over)
         cfg = rc.write_cfg("gen_C04_Reach_%s.cfg" % tag, "Spec", c, invs)
@@ -116,20 +124,28 @@ def run(v, tier, seed):
         if not os.path.exists(cfgp): raise vlib.MachineryError("spec/Reflector/TreeTrace.cfg is missing")
         r = vlib.tlc("TreeTrace", "TreeTrace.cfg", rc.FAMILY, workers=1, timeout=(600 if tier == "quick" else 3000), env={"TRACE": tr}, keep_out=True, heap="6g")
         if r.error and not r.violated: raise vlib.MachineryError("TreeTrace: " + r.error)
+        # accepted = no invariant failed and the last line was reached (the progress register printed by the POSTCONDITION; a violation
+        # prints the behaviour, whose last state gives the line)
+        m = re.search(r'"maxline", (\d+), "of", (\d+)', r.out)
         lines = [int(x) for x in re.findall(r"^/\\ l = (\d+)", r.out, re.M)]
+        verdict = r.violated or ("NotAccepted" if (m and int(m.group(1)) == int(m.group(2)) + 1) else "stuck")
+        line = (max(lines) - 1) if lines else (int(m.group(1)) if m else None)
         r.out = ""
-        return rows, r.violated, (max(lines) if lines else None), tr, r.wall
+        return rows, verdict, line, tr, r.wall
 
     def directed():
         rep = W("directed.ndjson")
         rc.run_refl(["directed", rep], timeout=120)
         return vlib.read_ndjson(rep)
 
-    nh, nc, nt = (1200, 100, 40) if tier == "quick" else (40000, 120, 600)
+    nh, nc, nt = (500, 200, 20) if tier == "quick" else (12000, 300, 120)      # histories, commands per history, histories logged for TLC
+    big = {}
+    if tier == "thorough": big["full"] = insts.pop("full")
     with cf.ThreadPoolExecutor(max_workers=(5 if tier == "quick" else 4)) as ex:
         f_ex = ex.submit(explore, nh, nc, nt)
         f_dir = ex.submit(directed)
         f_in = [ex.submit(model_and_replay, n, I) for n, I in sorted(insts.items(), key=lambda kv: -len(kv[1]["c"]["DeepPaths"]))]
+        f_mc = [ex.submit(model_only, n, I) for n, I in big.items()]
         f_re = [ex.submit(reach, *x) for x in REACH]
         for f in f_re:
             tag, inv, violated = f.result()
@@ -143,6 +159,10 @@ def run(v, tier, seed):
             notes.append({"instance": name, "distinct": r.distinct, "generated": r.generated, "depth": r.depth, "tlc_wall_s": round(r.wall, 1), "transitions_covered": st["graph_edges"],
                           "behaviours": summ["behaviours"], "followed": summ["followed"], "commands": ops})
             samples += [{"kind": "behaviour of SubsImpl replayed (instance %s)" % name, "steps": s[:6]} for s in smp]
+        for f in f_mc:
+            name, r = f.result()
+            tot["states"] += r.distinct; tot["transitions"] += r.generated
+            notes.append({"instance": name + " (model-checked only)", "distinct": r.distinct, "generated": r.generated, "depth": r.depth, "tlc_wall_s": round(r.wall, 1)})
         rows, tviol, tline, tr, twall = f_ex.result()
         esum = rc.judge_rows(v, rows, "C04", "random history", "explore")
         accepted = (tviol == "NotAccepted")
